@@ -30,7 +30,7 @@ def cases_for(i, lines):
 
 
 def gen_requests(ctx, res):
-    rng = ctx.rng
+    rng = ctx.rng.fork('C11')      # hashed: consecutive VERIF_SEED values of the SplitMix64 in vlib are the same stream shifted by one draw
     out = []          # (kind, flg, nsub, pats, cases)
     L = 4 if ctx.quick else 5
     i = 0
